@@ -291,10 +291,10 @@ Proof.
   cut (unsafe_bracketed s (snd (bracket_if (is_registered v) start_safe_ovr
          (if ci then
             modify (fun s0 => set_arg s0 (Some v)) ;;;
-            bracket_if (is_safe_value v) start_safe_ovr (h <- rec (CHandleMethods verb) ;; if rbool h then ret tt else kind_part)
+            bracket_if (is_safe_value v || is_registered v) start_safe_ovr (h <- rec (CHandleMethods verb) ;; if rbool h then ret tt else kind_part)
           else kind_part) s))).
   { intros H. destruct v; try discriminate; exact H. }
-  rewrite Hreg, Hsv. cbn [bracket_if]. destruct ci; [|apply Hkp; exact Hv].
+  rewrite Hreg, Hsv. cbn [bracket_if orb]. destruct ci; [|apply Hkp; exact Hv].
   apply shape_after_modify; [intros; split; reflexivity|].
   set (s1 := set_arg s (Some v)).
   assert (parg s1 = Some v) as Ha by (unfold s1; destruct s; reflexivity).
@@ -356,6 +356,33 @@ Proof.
     apply bracket_safe_ovr_shape; [|exact Hv]. apply printArg_inner_stable_s.
 Qed.
 
+(* the same value held in an interface-typed slice element / map value / array element:
+   printValue consults SafeValue and the registry on the DYNAMIC value *)
+Theorem declared_safe_element fuel env tn d verb depth s :
+  (is_registered d || is_safe_value d) = true ->
+  povr s = NoOvr ->
+  safe_bracketed s (snd (ev (S (S fuel)) env (CPrintValue (VIface tn (Some d)) verb (S depth) true) s)).
+Proof.
+  intros Hd Hv.
+  change (ev (S (S fuel)) env (CPrintValue (VIface tn (Some d)) verb (S depth) true))
+    with (printValue (ev (S fuel) env) env (VIface tn (Some d)) verb (S depth) true ;;; ret RU).
+  rewrite snd_bind_ret. unfold printValue. cbn [is_registered tinfo_of treg noT bracket_if].
+  rewrite (Bool.orb_comm (is_safe_value d)), Hd. cbn [bracket_if].
+  unfold bind at 1, modify at 1. cbn [fst snd].
+  set (s1 := set_arg s (Some d)).
+  assert (safe_bracketed s1 (snd (bracket start_safe_ovr
+            (h <- ev (S fuel) env (CHandleMethods verb) ;;
+             if rbool h then ret tt
+             else (modify (fun s0 => set_val (set_arg s0 None) (Some (VIface tn (Some d), true))) ;;;
+                   print_kind 8 (ev (S fuel) env) env (VIface tn (Some d)) verb (S depth) true)) s1))) as H.
+  { apply bracket_safe_ovr_shape; [|unfold s1; destruct s; exact Hv].
+    unfold stable_s. apply stable_value_body;
+      first [ exact (ext_refl _) | exact (ext_trans _) | exact HS_ovr | exact HS_write | exact HS_unsafe
+            | exact HS_raw | exact HS_safe | exact HS_restore | (intros c; apply ev_stable_s) ]. }
+  unfold safe_bracketed in *. unfold s1 in H at 1 2. destruct s; exact H.
+Qed.
+
 Print Assumptions unsafe_leaf_operand.
+Print Assumptions declared_safe_element.
 Print Assumptions unsafe_leaf_element.
 Print Assumptions declared_safe_operand.
